@@ -56,7 +56,7 @@ RecvWaitAll(b0) ==
                        ELSE /\ got' = Units(0, k) /\ pc' = "loop" /\ UNCHANGED <<outcome, partial>>
          [] b.k = "eof" -> /\ pc' = "loop" /\ UNCHANGED <<got, outcome, partial>>     \* short (empty) read: fall into the loop
          [] b.k = "timeout" -> /\ outcome' = "timeout" /\ pc' = "done" /\ UNCHANGED <<got, partial>>
-         [] b.k \in Fatal -> /\ outcome' = "closed" /\ pc' = "done" /\ UNCHANGED <<got, partial>>
+         [] b.k \in Fatal -> /\ outcome' = "closed" /\ partial' = got /\ pc' = "done" /\ UNCHANGED got
          [] b.k \in Retryable -> UNCHANGED <<pc, got, outcome, partial>>
 
 RecvLoop(b0) ==
@@ -73,7 +73,7 @@ RecvLoop(b0) ==
               /\ UNCHANGED partial
          [] b.k = "eof" -> /\ outcome' = "closed" /\ partial' = got /\ pc' = "done" /\ UNCHANGED got
          [] b.k = "timeout" -> /\ outcome' = "timeout" /\ pc' = "done" /\ UNCHANGED <<got, partial>>
-         [] b.k \in Fatal -> /\ outcome' = "closed" /\ pc' = "done" /\ UNCHANGED <<got, partial>>
+         [] b.k \in Fatal -> /\ outcome' = "closed" /\ partial' = got /\ pc' = "done" /\ UNCHANGED got
          [] b.k \in Retryable -> UNCHANGED <<pc, got, outcome, partial>>
 
 ReaderNext == \E b \in Behaviour : RecvWaitAll(b) \/ RecvLoop(b)
@@ -85,7 +85,7 @@ NeverSurplus  == Len(got) <= N /\ got = Units(0, Len(got))
 PartialIsData == outcome = "closed" /\ partial # <<-1>> => partial = got
 ErrorHasCause == /\ outcome = "closed" => sticky \in Fatal \cup {"eof"}
                  /\ outcome = "timeout" => sticky = ""
-EofCarriesData == outcome = "closed" /\ sticky = "eof" => partial = got
+EofCarriesData == outcome = "closed" => partial = got        \* (early close or fatal error alike)
 
 -----------------------------------------------------------------------------
 (* Writer.  Blocking sockets use sendall (all or error); otherwise the send loop: the socket accepts k units of
